@@ -47,7 +47,8 @@ def random_run(rng, tr=0, variants=None, **over):
     recs, L = gen.records(rng, wt=wt, N=over.pop("N", None), L=over.pop("L", None), nrec=over.pop("nrec", None))
     aff = [rng.choice([rng.random(), rng.random(), 0.0]) for _ in range((K if assort else K * K) * L)]
     kw = dict(r=rng.randint(1, 3), maxit=rng.choice([1, 5, 12, 31]), nconv=rng.choice([1, 2, 10]),
-              seed=rng.randint(0, 2 ** 33), tr=tr, aff=aff)
+              seed=rng.choice([rng.randint(0, 2 ** 33)] * 9 + [rng.choice([0, 1, 2 ** 31, 2 ** 32 - 1, 2 ** 32, 2 ** 32 + 1])]),
+              tr=tr, aff=aff)
     kw.update(over)
     return RunCase(directed, assort, init, K, recs, L, lt=lt, wt=wt, **kw)
 
